@@ -366,16 +366,31 @@ pub fn run_scn(scn: &Scn, scratch: &Path, tag: &str) -> RunOut {
         }
     }
     let _ = std::fs::write(&scenario, json!({"mode": scn.cargo_mode, "outcomes": outcomes, "faults": scn.faults}).to_string());
-    let mut env = vec![("PATH".to_string(), fakebin.to_string_lossy().to_string())];
+    let real = scn.cargo_mode == "real";
+    let mut env = if real {
+        // calibration: the real cargo and rustc, offline, with a target directory shared by all tests of the run
+        vec![
+            ("PATH".to_string(), "/root/.cargo/bin:/usr/local/bin:/usr/bin:/bin".to_string()),
+            ("CARGO_NET_OFFLINE".into(), "true".into()),
+            ("CARGO_TARGET_DIR".into(), scratch.join("real-cargo-target").to_string_lossy().to_string()),
+            ("CARGO_TERM_COLOR".into(), "never".into()),
+        ]
+    } else {
+        vec![("PATH".to_string(), fakebin.to_string_lossy().to_string())]
+    };
     env.push(("FAKE_CARGO_JOURNAL".into(), journal.to_string_lossy().to_string()));
     env.push(("FAKE_CARGO_SCENARIO".into(), scenario.to_string_lossy().to_string()));
     env.push(("HOME".into(), "/root".into()));
     let mut args: Vec<String> = vec!["--no-banner".into(), "--color".into(), "never".into(), "test".into()];
     args.extend(scn.flags.iter().cloned());
     args.push(scn.path_arg.clone());
-    let r = world::run_proc(&world::cli_path(), &args, &root, &env, 120_000);
+    let r = world::run_proc(&world::cli_path(), &args, &root, &env, if real { 1_200_000 } else { 120_000 });
     if let Some(e) = &r.spawn_error {
         simcore::harness_error(&format!("cannot spawn incan-cli: {e}"));
+    }
+    if real {
+        // keep the generated harnesses for the model comparison
+        return real_cargo_out(scn, &root, r);
     }
     let stdout = r.out_str();
     let stderr = r.err_str();
@@ -575,6 +590,81 @@ pub fn run_scn(scn: &Scn, scratch: &Path, tag: &str) -> RunOut {
     out
 }
 
+/// Real-cargo run: verdicts are compared with the designed outcomes directly (the bodies really run).
+fn real_cargo_out(scn: &Scn, root: &Path, r: world::ProcOut) -> RunOut {
+    let stdout = r.out_str();
+    let stderr = r.err_str();
+    let verdicts = parse_verdicts(&stdout);
+    let exp = model(scn);
+    let mut findings = Vec::new();
+    if r.timed_out || r.signal.is_some() || r.code.is_none() {
+        findings.push(Finding { class: "runner-crash".into(), fingerprint: "real-cargo|runner-crash".into(), detail: format!("incan test with real cargo did not end normally: {:?} {:?} {}", r.code, r.signal, trunc(&stderr, 300)) });
+    }
+    for (i, (fname, t)) in exp.selected.iter().enumerate() {
+        let want = if t.skip {
+            "SKIPPED"
+        } else if t.fixture_param {
+            // the harness cannot run functions taking fixture parameters: never PASSED
+            if t.xfail { "XFAIL" } else { "FAILED" }
+        } else {
+            match (t.outcome.as_str(), t.xfail) {
+                ("pass", false) => "PASSED",
+                ("pass", true) => "XPASS",
+                (_, false) => "FAILED",
+                (_, true) => "XFAIL",
+            }
+        };
+        match verdicts.get(i) {
+            Some((gf, gn, gv)) if gf == fname && gn == &t.name => {
+                if gv != want {
+                    let class = if gv == "PASSED" || gv == "XPASS" { "false-pass" } else { "false-fail" };
+                    findings.push(Finding {
+                        class: class.into(),
+                        fingerprint: format!("real-cargo|{class}|{}|reported-{gv}", feature_string(t, scn)),
+                        detail: format!("with the real cargo, {fname}::{} (body designed to {}) is reported {gv}, truthful is {want}", t.name, t.outcome),
+                    });
+                }
+            }
+            other => findings.push(Finding { class: "selection-wrong".into(), fingerprint: "real-cargo|selection".into(), detail: format!("verdict line {i}: {other:?}, expected {fname}::{}", t.name) }),
+        }
+    }
+    let should_fail = verdicts.iter().any(|(_, _, v)| v == "FAILED" || v == "XPASS");
+    if (r.code.unwrap_or(-1) != 0) != should_fail {
+        findings.push(Finding { class: "exit-wrong".into(), fingerprint: "real-cargo|exit".into(), detail: format!("exit {:?} with verdicts {:?}", r.code, verdicts) });
+    }
+    let _ = std::fs::remove_dir_all(root);
+    RunOut { findings, verdict_lines: verdicts, cargo_calls: 0, faults_fired: BTreeMap::new(), stdout, stderr, code: r.code }
+}
+
+/// The calibration scenario: one of everything, bodies that really pass / fail an assertion / panic.
+pub fn calibration_scn() -> Scn {
+    let t = |name: &str, outcome: &str, skip: bool, xfail: bool, slow: bool, fx: bool| TestFn { name: name.into(), outcome: outcome.into(), skip, xfail, slow, fixture_param: fx, is_async: false };
+    Scn {
+        files: vec![TestFile {
+            path: "test_calibration.incn".into(),
+            tests: vec![
+                t("test_cal_pass", "pass", false, false, false, false),
+                t("test_cal_fail", "fail", false, false, false, false),
+                t("test_cal_panic", "panic", false, false, false, false),
+                t("test_cal_xfail_fails", "fail", false, true, false, false),
+                t("test_cal_xfail_passes", "pass", false, true, false, false),
+                t("test_cal_skipped", "fail", true, false, false, false),
+                t("test_cal_slow", "pass", false, false, true, false),
+                t("test_cal_fixture", "pass", false, false, false, true),
+            ],
+            discoverable: true,
+            parses: true,
+        }],
+        extra_files: vec![],
+        path_arg: ".".into(),
+        flags: vec!["--slow".into()],
+        cargo_mode: "real".into(),
+        faults: BTreeMap::new(),
+        no_cargo: false,
+        order: vec![0],
+    }
+}
+
 fn trunc(s: &str, n: usize) -> String {
     if s.len() <= n {
         s.to_string()
@@ -592,7 +682,7 @@ fn trunc(s: &str, n: usize) -> String {
 fn budget(t: Tier) -> u64 {
     match t {
         Tier::Quick => simcore::scaled(260),
-        Tier::Thorough => simcore::scaled(6000),
+        Tier::Thorough => simcore::scaled(2000),
     }
 }
 
@@ -780,7 +870,7 @@ pub fn main(args: &[String]) {
     viols.sort_by_key(|v| (v["index"].as_u64().unwrap_or(0), v["variant"].as_u64().unwrap_or(0)));
     let scratch = simcore::lsp::scratch_root("c16-parent");
     let mut seen_fp: BTreeMap<String, u64> = BTreeMap::new();
-    let mut out_viol = Vec::new();
+    let mut out_viol: Vec<Violation> = Vec::new();
     for v in &viols {
         let fp = v["fingerprint"].as_str().unwrap_or("").to_string();
         let n = seen_fp.entry(fp.clone()).or_insert(0);
@@ -809,11 +899,38 @@ pub fn main(args: &[String]) {
             replay: json!({"engine": "worldsim", "check": "C16", "expect_fingerprint": fp, "scenario": m}),
         });
     }
+    // ---- calibration of the stub against the real thing (thorough tier): same scenario with real cargo and with the model
+    let mut calibration = json!("skipped in the quick tier");
+    if tier == Tier::Thorough || simcore::arg_flag(args, "--calibrate") {
+        let real = calibration_scn();
+        let out_real = run_scn(&real, &scratch, "cal-real");
+        let mut modelled = real.clone();
+        modelled.cargo_mode = "model".into();
+        let out_model = run_scn(&modelled, &scratch, "cal-model");
+        let lr: Vec<String> = out_real.verdict_lines.iter().map(|v| format!("{}::{} {}", v.0, v.1, v.2)).collect();
+        let lm: Vec<String> = out_model.verdict_lines.iter().map(|v| format!("{}::{} {}", v.0, v.1, v.2)).collect();
+        if lr != lm || out_real.code != out_model.code {
+            simcore::harness_error(&format!("calibration: the simulated cargo's model disagrees with real cargo on the calibration scenario\n real:  {lr:?} exit {:?}\n model: {lm:?} exit {:?}\n{}", out_real.code, out_model.code, trunc(&out_real.stderr, 600)));
+        }
+        for f in out_real.findings.iter().chain(out_model.findings.iter()) {
+            out_viol.push(Violation {
+                property: PROPERTY.into(),
+                class: f.class.clone(),
+                fingerprint: f.fingerprint.clone(),
+                seed: 0,
+                detail: format!("{}\n  (calibration scenario)\n{}", f.detail, trunc(&out_real.stdout, 1200)),
+                replay: json!({"engine": "worldsim", "check": "C16", "expect_fingerprint": f.fingerprint, "scenario": real}),
+            });
+        }
+        total += 2;
+        calibration = json!({"real_cargo_verdicts": lr, "model_verdicts": lm, "exit": out_real.code, "agree": true});
+    }
     let _ = std::fs::remove_dir_all(&scratch);
     let wall = t0.elapsed().as_secs_f64();
     let coverage = json!({
         "evaluations": total,
         "distinct_nontrivial": shapes.len(),
+        "calibration_against_real_cargo": calibration,
         "rule": "one evaluation = one real `incan-cli test` process on a generated tree (1-3 test files in flat/nested/tests dirs, 1-5 test functions each with designed outcome pass/fail/panic, markers @skip/@xfail/@slow, fixture parameters, decoys in target/, hidden dirs, node_modules, wrong extensions, unparsable files; flags -k/--slow/-x/--fail-on-empty/-v) against the simulated cargo (model of cargo test reading the generated harness, or told verdicts) plus injected faults at the process boundary. Non-trivial = at least two selected tests or an injected fault; distinct = distinct (selection, flags, faults, cargo mode).",
         "samples": samples,
         "runs_per_hour": if wall > 0.0 { (total as f64 / wall * 3600.0) as u64 } else { 0 },
